@@ -5,7 +5,7 @@
   and every failure oracle in every `end_` op.  The invariant itself (`FinInv`, `RFin`) and the
   step lemmas live in `Lemmas/CoreFin*.lean`.
 -/
-import DymVerif.Lemmas.CoreFinComplete
+import DymVerif.Lemmas.CoreFinIso
 namespace DymVerif.C02
 open DymVerif DymVerif.Core
 
@@ -157,33 +157,30 @@ theorem finalize_complete (p : Params) (ops : List Op) (fails : List (Nat × Nat
   rw [hrun]
   exact endBlock_complete fails (run_fin p ops) hr hst hnf (by rw [run_p]; exact hdue) hok
 
-/-- **Failure isolation**: what an `EndBlock` does to the states and the latest finalized index of a
-    rollapp depends only on the oracle restricted to that rollapp's due indices: two oracles that
-    agree there give the same result, whatever they do to other rollapps (any state, not only
-    reachable ones).  The statement is about `(states, lastFin)` of the record. -/
-theorem failure_isolated_gen (s : St) (f1 f2 : List (Nat × Nat)) (id : Nat)
-    (hag : ∀ e ∈ s.queue, e.ra = id → e.ch + s.p.dispute ≤ s.h → ∀ j ∈ e.idx, f1.contains (id, j) = f2.contains (id, j)) :
-    (getRa (endBlock s f1) id).map (fun r => (r.states, r.lastFin)) =
-      (getRa (endBlock s f2) id).map (fun r => (r.states, r.lastFin)) :=
-  endBlock_iso s f1 f2 id hag
+/-- **Failure isolation**: what an `EndBlock` does to a rollapp's record (all its state infos, the
+    latest finalized index and every other field) depends only on the oracle restricted to that
+    rollapp's due indices: two oracles that agree there give the same record, whatever they do to other
+    rollapps — for every reachable pre-state. -/
+theorem failure_isolated_gen (p : Params) (ops : List Op) (f1 f2 : List (Nat × Nat)) (id : Nat)
+    (hag : ∀ e ∈ (run p ops).queue, e.ra = id → e.ch + p.dispute ≤ (run p ops).h →
+      ∀ j ∈ e.idx, f1.contains (id, j) = f2.contains (id, j)) :
+    getRa (run p (ops ++ [.end_ f1])) id = getRa (run p (ops ++ [.end_ f2])) id := by
+  have hrun : ∀ f, run p (ops ++ [.end_ f]) = endBlock (run p ops) f := by
+    intro f; rw [run_append]; rfl
+  rw [hrun, hrun]
+  apply endBlock_iso_full _ (run_fin p ops).nodup
+  rw [run_p]; exact hag
 
-/-- in particular: for a rollapp none of whose due indices is failed, the result equals the result
-    under the empty oracle -/
-theorem failure_isolated (s : St) (fails : List (Nat × Nat)) (id : Nat)
-    (hno : ∀ e ∈ s.queue, e.ra = id → e.ch + s.p.dispute ≤ s.h → ∀ j ∈ e.idx, (id, j) ∉ fails) :
-    (getRa (endBlock s fails) id).map (fun r => (r.states, r.lastFin)) =
-      (getRa (endBlock s []) id).map (fun r => (r.states, r.lastFin)) := by
-  apply endBlock_iso
+/-- in particular: for a rollapp none of whose due indices is failed, the record after the block
+    equals the record under the empty oracle (no failure anywhere) -/
+theorem failure_isolated (p : Params) (ops : List Op) (fails : List (Nat × Nat)) (id : Nat)
+    (hno : ∀ e ∈ (run p ops).queue, e.ra = id → e.ch + p.dispute ≤ (run p ops).h → ∀ j ∈ e.idx, (id, j) ∉ fails) :
+    getRa (run p (ops ++ [.end_ fails])) id = getRa (run p (ops ++ [.end_ []])) id := by
+  apply failure_isolated_gen
   intro e he hra hdue j hj
   have := hno e he hra hdue j hj
   have h1 : fails.contains (id, j) = false := by simpa using this
   rw [h1]; rfl
-
-/-- the finalization pass itself (before the liveness hook) leaves the whole record identical -/
-theorem failure_isolated_record (s : St) (f1 f2 : List (Nat × Nat)) (id : Nat)
-    (hag : ∀ e ∈ s.queue, e.ra = id → e.ch + s.p.dispute ≤ s.h → ∀ j ∈ e.idx, f1.contains (id, j) = f2.contains (id, j)) :
-    getRa (finalizeRollappStates s f1) id = getRa (finalizeRollappStates s f2) id :=
-  finalizeRollappStates_iso s f1 f2 id hag
 
 -- ---------------------------------------------------------------- non-vacuity: concrete histories
 
